@@ -130,7 +130,7 @@ _VAR = re.compile(r"^(?:/\\ )?(\w+) = ", re.M)
 
 def tla_to_py(text):
     """TLA+ value made of tuples, integers, strings and booleans -> Python value."""
-    t = text.replace("<<", "[").replace(">>", "]")
+    t = text.replace("<<", "[").replace(">>", "]").replace("{", "[").replace("}", "]")   # sets are read as lists
     t = t.replace("TRUE", "true").replace("FALSE", "false")
     return json.loads(t)
 
